@@ -130,7 +130,9 @@ def tpl_reject(size, m, pfx, locked, closed, notcoro, c, dup, _twin=False):
                     code = 906 if after[10] != before[10] else 904
                 # unlock restores normal acceptance
                 if not code and locked:
-                    pool.unlock()
+                    pool.unlock()              # one unlock() undoes lock(); lock()
+                    if pool.is_locked:
+                        code = 907
                     pool.unlock()
                     if pool.is_locked:
                         code = 907
